@@ -137,7 +137,7 @@ PROPS["C08"] = {
     "level": "exploration",
     "level_text": "held on N concurrent executions: for scenarios whose concurrent operations commute in the reference model, every explored interleaving (all single preemptions of each operation at every crux_verif hook point with the peer running meanwhile; randomised yields at hook points with 2-4 threads; plain stress, also under ThreadSanitizer) produced exactly the union of effects, the event log (with per-task order), the resolve verdicts and the final state of a sequential execution, left the core quiescent, and kept every subscription alive (sequential suffix compared with the model). Schedules are sampled / enumerated at hook granularity, not exhausted.",
     "level_note": "interleavings inside crossbeam / futures internals are only reached by the stress, TSan and Miri lanes; the controller only blocks threads at hook points (places the OS may preempt anyway) and releases a held thread as soon as its peer waits for it",
-    "technique": "forced single-preemption schedules at hook points + randomised schedules + TSan/Miri stress; ledger oracle from a commuting-operations reference model; model-free conservation monitor (emission log vs applied log) for abort races",
+    "technique": "forced single-preemption schedules at hook points (crux_verif points, and waker clone / wake / drop of a foreign-waker adapter around request and stream futures) + randomised schedules + TSan/Miri stress; ledger oracle from a commuting-operations reference model; model-free conservation monitor (emission log vs applied log) for abort races",
     "rule": "scenario = random program started on one Core + sequential prefix + 2-4 operations (resolve / drop / event / view) that commute in the model, or an abort race (abort of a command, inside update or through the handle, against a resolution whose task emits a burst: no single expectation, conservation emitted == applied, per-task order, nothing of the aborted command runs after the calls returned); forced lane: for each ordered pair and each hook hit k of the first operation, hold it there while the second runs; random/stress lanes: all at once, repeated; non-trivial = a schedule in which the held thread really was preempted at a hook (forced) or a run with >= 2 threads (random/stress); distinct = hash of (scenario, pair, k) / (scenario, repetition)",
     "lanes": [
         schedlab("forced", 800, 16000, 8, 16),
@@ -258,7 +258,7 @@ PROPS["C12"] = {
     "level": "fault_enumeration",
     "level_text": "held on N malformed inputs: at every position of random valid histories (one-shot, stream and notification requests outstanding), malformed events and malformed responses to every outstanding request - random bytes, truncation at every length, extension, bit flips, every 8-byte window set to each of 10 hostile lengths, every 4-byte window as a corrupt variant index; for JSON: unbalanced, 2k-10k deep nesting, wrong types, huge numbers, invalid UTF-8 and escapes - returned normally or with an error value: no panic (trap), no allocation above 64 MiB for inputs of a few KiB (counting global allocator), no hang (per-case watchdog); a rejected event left view bytes and registry unchanged; after every attack round a valid step behaved exactly as on a twin bridge that never saw the malformed input (effects modulo ids, view).",
     "level_note": "the app (harness/cmdlab/src/fuzzapp.rs) is total, so every panic is the bridge's or the serde stack's; ids are always those of outstanding requests (documented precondition); a one-shot request that received a malformed response is retired on both bridges ('affects at most the one request it was addressed to')",
-    "technique": "fault injection at every history position + twin-bridge differential + counting allocator + panic trap",
+    "technique": "fault injection at every history position + twin-bridge differential + counting allocator + panic trap; boundary-value / damaged responses to the capability crates' own requests with bystander and follow-up health probes",
     "rule": "history of 3-14 valid steps; before each step the full mutation set against one fresh event encoding and against a fresh response encoding for each outstanding request (all mutations for streams, one for a one-shot); non-trivial = malformed input that was rejected with app state verified unchanged; distinct = hash of (bytes, mutation kind, history)",
     "lanes": [{"name": "bridgefuzz", "pkg": "cmdlab", "bin": "bridgefuzz", "workers": {"quick": 4, "thorough": 16}, "timeout": {"quick": 900, "thorough": 5400}},
               caplab("capfuzz", 4, 16)],
@@ -300,7 +300,7 @@ PROPS["C20"] = {
     "level": "exploration",
     "level_text": "held on N runs of the real codegen (through the crux_verif entry point) over all 7 bundled descriptions, including the two whose snapshot tests are disabled: the registry (as a JSON value) was identical to the untransformed run under (a) a random non-monotone bijection applied consistently to every item id of every crate description (index / paths keys, id, root, parent, items / variants / fields / impls / implementations / tuple lists, links), (b) fresh deserialisation of every description (new HashMap seeds; the number of distinct index iteration orders and crate loading orders actually seen is reported); every referenced TYPENAME is defined; enum variant indices are 0..n-1 and in the declaration order read independently from the rustdoc description (serde-skipped variants removed); every shipped protocol type's entry equals the schema traced from its real serde implementation.",
     "level_note": "map iteration orders and crate loading orders cannot be chosen, only sampled by re-running; the evidence reports how many distinct ones were observed",
-    "technique": "metamorphic re-runs (id renumbering, fresh hash seeds) + closure / contiguity / traced-schema monitors",
+    "technique": "metamorphic re-runs (id renumbering incl. sentinel numbers, fresh hash seeds) + closure / contiguity / traced-schema monitors + description edits whose effect on the registry is predicted independently",
     "rule": "description x transformation (2 of 3 renumbered, all freshly deserialised); non-trivial = transformed run whose registry equals the baseline; distinct = (description, transformation, seed)",
     "lanes": [{"name": "clilab", "pkg": "clilab", "bin": "clilab", "workers": {"quick": 7, "thorough": 16}, "timeout": {"quick": 1200, "thorough": 7200}}],
     "floors": {"quick": {"evaluations": 80, "distinct_nontrivial": 70, "renumbered_runs": 50, "forced_cross_crate_collision_renumberings": 14, "dense_renumberings": 14, "affine_renumberings": 14},
